@@ -7,6 +7,9 @@ claimed = {
  "C01": ("must-facts (dominating branch conditions) on the skip decision, edge facts on the dependency accumulator, value slicing for stamp dependence and directory hashing, dominance for record ordering and generator linking (go/ssa)",
          "Decides that the skip decision cannot ignore any of its four inputs, that a dependency counts as up to date only with a record, no change and equal stamp, that the stamp handed to dependents depends on dependency stamps (found and fixed F8), that directory sums cover names in sorted order (found and fixed F6), that a function target is up to date only with unchanged environment and existing outputs, that generators are linked on every full load, and that records are written only after a successful body.",
          "Trusts go/ssa; the skeleton of (*runTarget).Evaluate is recognised by role (interface invokes, fields), other shapes are reported undecided. Equality of outputs with a clean build for a given history is behavioural and not decided."),
+ "C02": ("nondeterminism-source reachability over the VTA call graph from the stamp code, must-facts on the source-file verdicts, value identity of the record rewritten at load, provenance of both sides of the environment comparison (go/ssa)",
+         "Decides that no clock/pid/random/directory-order/address/map-order source is reachable from the code that computes or compares stamps, that sources are up to date exactly on equality of recorded and current content hash (no mtime), that a load writes back exactly the record it read, and that both sides of the environment comparison come from the same decoder/unpickler and the same pickler.",
+         "Trusts go/ssa + VTA (over-approximate) and the source table. That unrelated edits leave a function's compiled bytecode unchanged is a property of the Starlark compiler and not decided."),
  "C03": ("dominance/must-facts for temp-file+rename ordering, who-may-write table over path-derivation slices, literal-field extraction of the records written, fallback analysis of the index load (go/ssa)",
          "Decides atomic replacement of records (CreateTemp in the state tree -> encode -> close -> rename onto the label-derived path, each on the nil-error edge), the closed set of writers of the build-state directory, failure records with Rerun and without stamp, success records only after the body, index load fallback and index write optionality, and that build/watch/Reload never load from the index.",
          "Trusts go/ssa, rename atomicity within one file system (process-death crash model, no fsync). Convergence after recovery is not decided."),
@@ -55,6 +58,9 @@ claimed = {
  "C18": ("typestate dataflow over the CFG of (*runTarget).Evaluate, who-may-emit rules, dominance for run-done and flush",
          "Decides on every path the event protocol of one evaluation (up-to-date | evaluating·succeeded | evaluating·failed | failed | silent only when a dependency failed), body only between evaluating and the terminal event, success never on an error edge, target events only from Evaluate, run-done exactly once after the runner with the returned error, flush deferred first in evaluate.",
          "Trusts go/ssa. Line reassembly for all chunkings and cross-target interleaving are behavioural and not decided."),
+ "C19": ("table agreement between struct tags and the hand-written writer's format strings, encoder-on-every-value flow check, edge facts on the bare-key branch, constant extraction of the bare-key alphabet (go/ssa + go/types)",
+         "Decides that every toml-tagged field is written under its tag key, that requirements are written in sorted order, that every value goes through the TOML encoder, and that a requirement name is written bare only when non-empty (found and fixed F12) and made of A-Za-z0-9_-.",
+         "That go-toml decodes what its encoder produces for every string is library behaviour and not decided."),
  "C20": ("lock-set + dominance/must-facts over go/ssa",
          "Decides guarded-by on cache.entries, re-check of the same key under the write lock before the call with no unlock through to the update, update only on the nil-error edge with the call's value, hits return the stored value.",
          "Trusts go/ssa and sync.RWMutex semantics."),
